@@ -20,3 +20,20 @@ package b6
 //@   havoc
 //@ func Expression.ToProto
 //@   havoc
+
+// ---- C24: collection interfaces as seen by the collection functions --------------
+// A collection that reports a count reports a non-negative one.
+//@ func UntypedCollection.Count
+//@   trusted
+//@   pure
+//@   ensures implies(result1, result0 >= 0)
+//@ func UntypedCollection.BeginUntyped
+//@   trusted
+//@   ensures result != nil
+// An iterator's own methods do not write the state of the collection object that wraps it.
+//@ func Iterator.Next
+//@   trusted
+//@ func Iterator.Key
+//@   trusted
+//@ func Iterator.Value
+//@   trusted
